@@ -3,30 +3,41 @@
    written by harness/overlay/verif_session_test.go, must be a behaviour of Session.  With
    Findings = {} (SessionTrace.cfg) that is the property itself; SessionTrace_known.cfg allows the
    recorded deviations so that the rest of a trace that exhibits one is still validated.
-   Every consumed Validate / Refresh / Forge line prints <<"ST", line, labels, observed>> for the
+   Every tried Validate / Refresh / Forge line prints a JSON note {st: line, labels, observed} for the
    evidence and for the signature of a rejection.                                                 *)
 EXTENDS Session
 
-VARIABLE l          \* next trace line to consume
+VARIABLES l,        \* next trace line to consume
+          cur       \* line of the Reset that opened the trace being consumed (0: between traces)
 
 Trace == ndJsonDeserialize("trace.ndjson")
+ResetLines == {i \in 1..Len(Trace) : Trace[i].ev = "Reset"}
 
-tvars == <<vars, l>>
+tvars == <<vars, l, cur>>
 
-IsEv(e) == l <= Len(Trace) /\ Trace[l].ev = e /\ l' = l + 1
+IsEv(e) == l <= Len(Trace) /\ Trace[l].ev = e /\ l' = l + 1 /\ cur' = cur
 E == Trace[l]
 
 Fresh(k) == /\ now' = 0 /\ secret' = k /\ nextId' = 0 /\ tok' = <<>> /\ table' = <<>>
             /\ revoked' = {} /\ rotated' = {} /\ last' = NoLast /\ hist' = <<>>
 
-TraceInit == /\ l = 1 /\ TLCSet(1, 1)
+\* register i+1 = high-water mark (next line to consume) of the trace opened by the Reset on line i
+TraceInit == /\ l = 1 /\ cur = 0
+             /\ \A i \in ResetLines : TLCSet(i + 1, i)
              /\ now = 0 /\ secret = 0 /\ nextId = 0 /\ tok = <<>> /\ table = <<>>
              /\ revoked = {} /\ rotated = {} /\ last = NoLast /\ hist = <<>>
 
-TraceReset == IsEv("Reset") /\ Fresh(0)
+\* every trace starts with a Reset line that carries the line number of the next Reset (`next`)
+TraceReset == /\ l <= Len(Trace) /\ Trace[l].ev = "Reset" /\ l' = l + 1 /\ cur' = l /\ Fresh(0)
+\* Traces are independent: a trace can be abandoned at any line (its high-water mark then tells where),
+\* so that one TLC run judges all traces.  All abandon steps of a trace lead to one state.
+TraceAbandon == /\ cur > 0 /\ l <= Len(Trace) /\ Trace[l].ev # "Reset"
+                /\ l' = Trace[cur].next /\ cur' = 0 /\ Fresh(0)
 TraceStart == IsEv("Start") /\ nextId = 0 /\ now = 0 /\ Fresh(E.k)
 
-Note(t) == PrintT(<<"ST", l, E.ev, IF t = 0 THEN {E.kind} \cup NoSecret ELSE Labels(t), E.mut, E.ok, E.fresh>>)
+\* one JSON string per note (TLC wraps long tuples over several lines)
+Note(t) == PrintT(ToJson([st |-> l, ev |-> E.ev, labels |-> IF t = 0 THEN {E.kind} \cup NoSecret ELSE Labels(t),
+                          mut |-> E.mut, ok |-> E.ok, fresh |-> E.fresh]))
 Known(t) == t \in DOMAIN tok
 
 TraceTick     == IsEv("Tick") /\ Tick(1)
@@ -40,12 +51,12 @@ TraceRefresh  == IsEv("Refresh") /\ Known(E.tok) /\ Note(E.tok)
                  /\ Refresh(E.tok, E.mut, E.ok, E.acc, E.ref, E.fresh)
 TraceRevoke   == IsEv("Revoke") /\ Known(E.tok) /\ Revoke(E.tok, E.mut)
 
-TraceNext == \/ TraceReset \/ TraceStart \/ TraceTick \/ TraceSecret \/ TraceCreate \/ TraceCreateT
+TraceNext == \/ TraceReset \/ TraceAbandon \/ TraceStart \/ TraceTick \/ TraceSecret \/ TraceCreate \/ TraceCreateT
              \/ TraceValidate \/ TraceForge \/ TraceRefresh \/ TraceRevoke
 
 TraceSpec == TraceInit /\ [][TraceNext]_tvars
 
-HighWater == IF l > TLCGet(1) THEN TLCSet(1, l) ELSE TRUE
-TraceAccepted == /\ PrintT(<<"HWM", TLCGet(1) - 1>>)
-                 /\ TLCGet(1) - 1 = Len(Trace)
+HighWater == IF cur > 0 /\ l > TLCGet(cur + 1) THEN TLCSet(cur + 1, l) ELSE TRUE
+\* prints, for every trace, the line of its Reset and its high-water mark; python compares with `next`
+TraceAccepted == \A i \in ResetLines : PrintT(<<"HWM", i, TLCGet(i + 1)>>)
 =============================================================================
